@@ -215,8 +215,22 @@ def diverges_with_err(n):
 
 
 def skips_rest(ifnode):
-    """an If one of whose branches leaves the enclosing block early without reporting an error"""
-    for br in (ifnode.get('th'), ifnode.get('el')):
+    """an If / let-else / match statement one of whose branches leaves the enclosing block early without reporting an error"""
+    k0 = ifnode.get('k')
+    if k0 == 'If':
+        branches = (ifnode.get('th'), ifnode.get('el'))
+    elif k0 == 'Let':
+        branches = (ifnode.get('els'),)
+        init = ifnode.get('i')
+        if isinstance(init, dict) and init.get('k') in ('If', 'Match') and skips_rest(init):
+            return True
+    elif k0 == 'Match':
+        branches = tuple(a['b'] for a in ifnode['arms'])
+        if len(branches) < 2:
+            return False
+    else:
+        return False
+    for br in branches:
         if br is None:
             continue
         stack = [br]
@@ -488,8 +502,10 @@ class Flow:
         for s in n['st']:
             self.ev(fr, s, ctx, stack)
             # `if c { continue / break / return <non-Err> }`: the rest of the block runs only when !c
-            if s.get('k') == 'If' and skips_rest(s):
+            if s.get('k') in ('If', 'Let', 'Match') and skips_rest(s):
                 cf = self._conds.get(id(s), EMPTY)
+                if not cf and s.get('k') == 'Let' and isinstance(s.get('i'), dict):
+                    cf = self._conds.get(id(s['i']), EMPTY) or flat(self.quiet(fr, s['i'], ctx, stack))
                 if cf:
                     ctx = ctx + (('if', cf, s, 'skip'),)
         if 'e' in n:
@@ -611,6 +627,7 @@ class Flow:
     def ev_Match(self, fr, n, ctx, stack):
         s = self.ev(fr, n['e'], ctx, stack)
         sf = flat(s)
+        self._conds[id(n)] = sf
         r = None
         # a match with one irrefutable arm is just a binding form (used by ensure!/assert_eq! expansions)
         single = len(n['arms']) == 1
